@@ -24,6 +24,8 @@ ThreadNaming == {"distinct", "shared"}
 \* every way of making a store is the same TryCreate: the factory methods create / open / append, a subclass, and the
 \* public constructor called directly
 EntryPoints == {"factory", "subclass", "constructor"}
+\* SlowThreads: between two steps of a thread any amount of time may pass (TLA+ steps carry no duration): whatever the
+\* guard relies on while one thread is inside it must not expire
 ASSUME None \notin Threads
 
 VARIABLES owner,    \* thread id allowed to create stores, or None
